@@ -328,7 +328,12 @@ func (ls *LockSets) analyse(f *ssa.Function) {
 			if iff, ok := b.Instrs[len(b.Instrs)-1].(*ssa.If); ok && b.Succs[0] != b.Succs[1] {
 				fct := CondFact(iff.Cond, si == 0)
 				if fct.Op == token.ILLEGAL && !fct.Neg {
-					if u, ok := fct.X.(*ssa.UnOp); ok && u.Op == token.MUL {
+					fx := fct.X
+					// the flag handed as an argument to a single-use step function (the deferred tail as a method)
+					if par, isPar := fx.(*ssa.Parameter); isPar {
+						fx = ResolveFree(par)
+					}
+					if u, ok := fx.(*ssa.UnOp); ok && u.Op == token.MUL {
 						if al, ok := ResolveFree(u.X).(*ssa.Alloc); ok && al.Parent() != f {
 							if k := condHandoff(al); k != "" {
 								o[k] = true
@@ -398,6 +403,21 @@ func (ls *LockSets) Released(lock ssa.Instruction, key string) bool {
 		}
 		if k, _, rel, _ := LockOp(cc); rel && k == key {
 			return true
+		}
+		// a function of the analysed set that releases (closeAndUnlock(): the deferred tail as a method)
+		if st := cc.StaticCallee(); st != nil && ls.fns[st] && st.Blocks != nil {
+			rel, acq := false, false
+			InstrsDeep(st, func(_ *ssa.Function, x ssa.Instruction) {
+				if c2 := CallOf(x); c2 != nil {
+					if k, a, r, _ := LockOp(c2); k == key {
+						rel = rel || r
+						acq = acq || a
+					}
+				}
+			})
+			if rel && !acq {
+				return true
+			}
 		}
 		// closure that releases
 		for _, o := range originsNoLoad(cc.Value) {
